@@ -45,7 +45,7 @@ const (
 	c08Unknown = "ghost@x.io"
 )
 
-var c08Paths = []string{"/", "/a", "/a/b", "/a%20b", "/%C3%A4", "/a%2Fb", "/" + strings.Repeat("p", 200), "/a/b/", "/a/../b"}
+var c08Paths = []string{"/", "/a", "/a/b", "/a%20b", "/%C3%A4", "/a%2Fb", "/" + strings.Repeat("p", 200), "/a/b/", "/a/../b", "/a//b"}
 var c08Queries = []string{"", "x=1", "x=1&y=2", "redir=%2Fother", "a=%26b%3D", "q=a+b", "%zz", "next=/../../admin", "return=https://example.com/cb", "trail=1/"}
 
 func c08Units(tier string) []engine.Unit {
@@ -139,8 +139,8 @@ func c08Run(uidKind, mount, tier string, dl time.Time) engine.UnitResult {
 							for _, twofa := range []bool{false, true} {
 								for _, api := range []bool{false, true} {
 									for _, p := range paths {
-										if mounted && (strings.HasSuffix(p, "/") && p != "/" || strings.Contains(p, "..")) {
-											continue // mount-pathed middleware guards authboss's own (clean) routes
+										if mounted && mount != "" && (strings.HasSuffix(p, "/") && p != "/" || strings.Contains(p, "..") || strings.Contains(p, "//")) {
+											continue // mount-pathed middleware guards authboss's own (clean) routes; path.Join(Mount, path) normalises
 										}
 										for _, q := range queries {
 											if !dl.IsZero() && res.Evaluations%4096 == 0 && time.Now().After(dl) {
@@ -318,9 +318,9 @@ func c08Check(c c08Case, o *world.Obs, ran int, seenUser string) (class, bad str
 func init() {
 	engine.Register(&engine.Property{
 		ID: "C08", Level: "exploration",
-		Rule:        "complete Cartesian product of session uid kind (absent/unknown/known/known+failing storage/empty) x half-auth x 2FA mark x context pre-load (none/pid/user) x requirement bits x refusal mode x mountPathed x Paths.Mount x API/form x 9 request paths x 10 raw queries, Middleware2 and the deprecated boolean entry points; each outcome compared with a reference function; non-trivial classes = distinct reference outcomes (run, 404, 401, redirect, API redirect, 500)",
+		Rule:        "complete Cartesian product of session uid kind (absent/unknown/known/known+failing storage/empty) x half-auth x 2FA mark x context pre-load (none/pid/user) x requirement bits x refusal mode x mountPathed x Paths.Mount x API/form x 10 request paths x 10 raw queries, Middleware2 and the deprecated boolean entry points; each outcome compared with a reference function; non-trivial classes = distinct reference outcomes (run, 404, 401, redirect, API redirect, 500)",
 		Units:       c08Units,
 		Need:        []string{"run", "refuse-404", "refuse-401", "refuse-redirect", "refuse-redirect-api", "storage-error-500"},
-		Assumptions: []string{"for mountPathed=true only clean paths are used (the option exists for authboss's own routes; path.Join normalises the path)"},
+		Assumptions: []string{"for mountPathed=true with a non-empty Paths.Mount only clean paths are used (the option exists for authboss's own routes; path.Join(Mount, path) normalises the path); with an empty mount every path is used and must come back verbatim"},
 	})
 }
